@@ -15,7 +15,7 @@ RULE = ("modules of set() commands with 0..5 values in every single-argument for
         "(name, type by value count, default as written, option note/help/default/bool). Non-trivial: a value list "
         "containing a quoted value with an escaped quote, an empty string, a bracket argument, a single character or "
         "an unquoted value ending in an escaped quote; distinct by SHA-1 of the case")
-ASSUMPTIONS = ["values contain no line breaks (a field value is one line)",
+ASSUMPTIONS = ["for a value containing a line break only the first line of the default is compared (the field is one line)",
                "for UNSET only the type field is constrained"]
 BUDGET = {"quick": {"shards": 4, "examples": 300}, "thorough": {"shards": 16, "examples": 4000}}
 
@@ -25,7 +25,7 @@ VALUES = G.IDENT_T + G.UNQ_T + G.VAR_T + G.BRACKET_T + G.QUOTED_T + [
 
 
 def strategy(tier):
-    tricky = st.sampled_from(['""', '"a\\"b@"', '"\\"@\\""', "x", '"x"', 'a@\\"', '\\"@', "[[]]", '" lead@"', '"a@\\\\"'])
+    tricky = st.sampled_from(['""', '"a\\"b@"', '"\\"@\\""', "x", '"x"', 'a@\\"', '\\"@', "[[]]", '" lead@"', '"a@\\\\"', '"two@\nlines"', '"cont@\\\nline"'])
     one = st.one_of(st.sampled_from(VALUES), tricky)
     vals = G.weighted((1, st.just([])), (3, st.lists(one, min_size=1, max_size=1)), (2, st.lists(one, min_size=2, max_size=5)))
     docline = G.weighted((4, G.benign_line()), (1, st.just("")),
